@@ -61,8 +61,13 @@ class InstanceGenerator(abc.ABC):
             num_jobs = (num_jobs, num_jobs)
         if isinstance(num_machines, int):
             num_machines = (num_machines, num_machines)
-        if seed is not None:
-            random.seed(seed)
+        # A seeded generator owns its random number generator: its sequence
+        # of instances does not depend on (nor affects) other users of the
+        # global ``random`` module, such as another generator. Unseeded
+        # generators keep drawing from the global one.
+        self._random: random.Random = (
+            random.Random(seed) if seed is not None else random  # type: ignore
+        )
 
         self.num_jobs_range = num_jobs
         self.num_machines_range = num_machines
